@@ -632,24 +632,7 @@ theorem applyFunction_step {fuel : Nat} (ih : Spec fuel) : ∀ fn args st, Inv s
         refine Post.bind (Q := fun _ s4 => s4.frames.size = s3.frames.size)
           (Post.set (hI3.update rfl hcur rfl hI3.cache) (Nat.le_refl _) rfl) ?_
         intro _ s4 hI4 _ hsz4
-        extract_lets jp
-        have hjp : ∀ s', Inv s' → s4.frames.size ≤ s'.frames.size → Post (jp ()) s' OkO := by
-          intro s' hIs' hle'
-          have hres' : okObj s'.frames.size res = true := okObj_mono (by omega) _ hres
-          unfold jp
-          refine Post.ite (fun _ => ?_) (fun _ => ?_)
-          · refine Post.ite (fun _ => ?_) (fun _ => Post.pure hIs' hres')
-            refine Post.bind (post_triggerNoCache hIs' (by omega)) ?_
-            intro _ s'' hIs'' hle'' _
-            exact Post.pure hIs'' (okObj_mono hle'' _ hres')
-          · refine Post.ite (fun _ => Post.pure hIs' hres') (fun _ => ?_)
-            refine Post.bind (post_cacheSet hIs' f.key args hres' output) ?_
-            intro _ s'' hIs'' hle'' _
-            exact Post.pure hIs'' (okObj_mono hle'' _ hres')
-        refine Post.ite (fun _ => ?_) (fun _ => hjp s4 hI4 (Nat.le_refl _))
-        refine Post.bind (post_writeOut hI4 output) ?_
-        intro _ s5 hI5 hle5 _
-        exact hjp s5 hI5 hle5
+        exact post_finishCall hI4 f args (by omega) _ _ _ (by rw [hsz4]; exact hres) output
   · exact Post.pure hI okObj_err
 
 theorem spec_succ {fuel : Nat} (ih : Spec fuel) : Spec (fuel + 1) where
